@@ -35,6 +35,8 @@ pub fn main(
     let mut breadcrumb = None;
     let mut profile = "rel".to_string();
     let mut replay_path: Option<String> = None;
+    let mut resume_after = 0u64;
+    let mut skip: Vec<u64> = Vec::new();
     let mut i = 2;
     while i < args.len() {
         let a = args[i].as_str();
@@ -62,6 +64,8 @@ pub fn main(
             "--breadcrumb" => breadcrumb = Some(std::path::PathBuf::from(val())),
             "--profile" => profile = val(),
             "--replay" => replay_path = Some(val()),
+            "--resume-after" => resume_after = val().parse().unwrap(),
+            "--skip" => skip = val().split(',').filter(|x| !x.is_empty()).map(|x| x.parse().unwrap()).collect(),
             _ => usage(),
         }
         i += 1;
@@ -70,6 +74,7 @@ pub fn main(
     crate::util::install_panic_hook();
     let mut ctx = Ctx::new(tier, shard.0, shard.1, seed, Duration::from_secs(wall));
     ctx.only = only;
+    crate::util::crumb_setup(breadcrumb.clone(), resume_after, skip);
     ctx.breadcrumb = breadcrumb;
     ctx.profile = profile;
     let mut rep = Report::new(&prop);
